@@ -4,7 +4,8 @@
    Vocabulary (theories/IndexGen.v): [load_index hdrdec k o file] is LoadIndex up to idx.Load as the
    tree is now (with the two repairs delivered with this property); [load_index_gen .. as_found ..] is
    the code as it was found.  k = SrcSeek (bytes.Reader, os.File, io.SectionReader, ...) or SrcPlain
-   (only an io.Reader: discarding wrapper with its own offset counter); [load_index_reader_at] is the
+   (no Seek method -- a bare io.Reader, bufio.Reader, bytes.Buffer: discarding wrapper with its own
+   offset counter, whether or not the source has ReadByte); [load_index_reader_at] is the
    io.ReaderAt path through NewReader(..).DataReader().  Archives are CONSTRUCTED ([enc_payload roots
    bs], [v2_container ..]), so "valid" never rests on a decoder's verdict.  Layer B: [sections_at],
    [section_recs], [spec_lookup] (offsets of the indexed sections carrying the key, in payload order),
